@@ -8,6 +8,12 @@ value.  `Conv` is the invariant (A) of E.1; (B) turned out to be unnecessary in 
 formulation: while a unit touching `k` is between `W1` and `W2` nothing is claimed about
 `k`, and the `W2` insert alone re-establishes (A) thanks to `CurLast` (no item concerning `k`
 is queued behind a pending handle of the current generation of `k`).
+
+Event-driven suppression (`ShLabel.w1Quiet`: a write stored but not announced): the invariant is
+stated **modulo the quiet writes** — `ORel (QChain sh.qlog)`: the expectation and the cache's value
+are both absent, or linked by a chain of logged quiet rewrites `(old, new)`.  With an empty log this
+is equality (`ORel.eq_of_nil`); if every logged pair is related by an equivalence `E` (the code:
+`value.Equal`), it is `E` (`ORel.of_equiv`).
 -/
 namespace Gnmi
 namespace SubLTS
@@ -55,6 +61,71 @@ def expectQ (sys : Sys K T R) (sh : Shared K V T R) (k : K) (base : Option V)
 with no further writes -/
 def expect (sys : Sys K T R) (sh : Shared K V T R) (b : Sub K V R) (k : K) : Option V :=
   expectQ sys sh k (sndApply sys sh k (view sys k b.sent) b.snd) (b.q.map (·.1))
+
+/-! ### equality modulo quiet writes -/
+
+/-- `a` and `b` are linked by a chain of quiet rewrites `(old, new)` of the log -/
+inductive QChain (log : List (V × V)) : V → V → Prop where
+  | refl (a : V) : QChain log a a
+  | tail {a b c : V} : QChain log a b → (b, c) ∈ log → QChain log a c
+
+/-- both absent, or both present and related -/
+def ORel (E : V → V → Prop) : Option V → Option V → Prop
+  | none, none => True
+  | some a, some b => E a b
+  | _, _ => False
+
+theorem QChain.mono {log log' : List (V × V)} (h : ∀ p ∈ log, p ∈ log') {a b : V}
+    (hc : QChain log a b) : QChain log' a b := by
+  induction hc with
+  | refl => exact .refl _
+  | tail _ hm ih => exact .tail ih (h _ hm)
+
+theorem QChain.eq_of_nil {a b : V} (h : QChain ([] : List (V × V)) a b) : a = b := by
+  induction h with
+  | refl => rfl
+  | tail _ hm _ => cases hm
+
+/-- if every logged pair is related by a reflexive, transitive `E`, so are the ends of a chain -/
+theorem QChain.rel {log : List (V × V)} {E : V → V → Prop} (hr : ∀ a, E a a)
+    (ht : ∀ a b c, E a b → E b c → E a c) (hl : ∀ p ∈ log, E p.1 p.2) {a b : V}
+    (h : QChain log a b) : E a b := by
+  induction h with
+  | refl => exact hr _
+  | tail _ hm ih => exact ht _ _ _ ih (hl _ hm)
+
+theorem ORel.of_eq {E : V → V → Prop} (hr : ∀ a, E a a) {a b : Option V} (h : a = b) : ORel E a b := by
+  subst h; cases a
+  · trivial
+  · exact hr _
+
+theorem ORel.qrefl {log : List (V × V)} {a b : Option V} (h : a = b) : ORel (QChain log) a b :=
+  ORel.of_eq QChain.refl h
+
+theorem ORel.imp {E E' : V → V → Prop} (h : ∀ a b, E a b → E' a b) {a b : Option V}
+    (hr : ORel E a b) : ORel E' a b := by
+  cases a <;> cases b
+  · trivial
+  · exact hr.elim
+  · exact hr.elim
+  · exact h _ _ hr
+
+theorem ORel.eq_of_nil {a b : Option V} (h : ORel (QChain ([] : List (V × V))) a b) : a = b := by
+  cases a <;> cases b
+  · rfl
+  · exact h.elim
+  · exact h.elim
+  · exact congrArg some (QChain.eq_of_nil h)
+
+theorem ORel.none_right {E : V → V → Prop} {a : Option V} (h : ORel E a none) : a = none := by
+  cases a
+  · rfl
+  · exact h.elim
+
+theorem ORel.none_left {E : V → V → Prop} {b : Option V} (h : ORel E none b) : b = none := by
+  cases b
+  · rfl
+  · exact h.elim
 
 theorem applyItem_noaff {sys : Sys K T R} {sh : Shared K V T R} {k : K} {i : Item K R}
     (cur : Option V) (h : i.aff sys k = false) : applyItem sys sh k cur i = cur := by
@@ -166,6 +237,49 @@ theorem expect_sh_congr {sys : Sys K T R} {sh sh' : Shared K V T R} (b : Sub K V
   rw [h2]
   congr 1
   funext cur i; exact h1 cur i
+
+/-- the value of the leaf object `(k, g)` is replaced by `v`, nothing else changes for `k`: the
+expectation is unchanged, or it is the value read through that handle — `some v` now, `some old` before -/
+theorem expect_setVal {sys : Sys K T R} {sh sh' : Shared K V T R} (b : Sub K V R) (k : K) (g : Nat) (v : V)
+    (hv : sh'.val k = setFn (sh.val k) g v) :
+    expect sys sh' b k = expect sys sh b k ∨
+      (expect sys sh' b k = some v ∧ expect sys sh b k = some (sh.val k g)) := by
+  have step : ∀ (i : Item K R) (c' c : Option V), (c' = c ∨ (c' = some v ∧ c = some (sh.val k g))) →
+      (applyItem sys sh' k c' i = applyItem sys sh k c i ∨
+        (applyItem sys sh' k c' i = some v ∧ applyItem sys sh k c i = some (sh.val k g))) := by
+    intro i c' c hc
+    cases i with
+    | handle k' g' =>
+      simp only [applyItem]
+      by_cases e : k' = k
+      · simp only [e, if_true, hv]
+        by_cases eg : g' = g
+        · subst eg; right; simp [setFn]
+        · left; simp [setFn, eg]
+      · simp only [e, if_false]; exact hc
+    | delNote k' =>
+      simp only [applyItem]
+      by_cases e : k' = k
+      · simp [e]
+      · simp only [e, if_false]; exact hc
+    | regionDel r =>
+      simp only [applyItem]
+      cases sys.covers r k
+      · simp only [Bool.false_eq_true, if_false]; exact hc
+      · simp
+    | syncMarker => exact hc
+  have fold : ∀ (l : List (Item K R)) (c' c : Option V), (c' = c ∨ (c' = some v ∧ c = some (sh.val k g))) →
+      (expectQ sys sh' k c' l = expectQ sys sh k c l ∨
+        (expectQ sys sh' k c' l = some v ∧ expectQ sys sh k c l = some (sh.val k g))) := by
+    intro l
+    induction l with
+    | nil => intro c' c hc; exact hc
+    | cons i l ih => intro c' c hc; exact ih _ _ (step i c' c hc)
+  unfold expect
+  refine fold _ _ _ ?_
+  cases hs : b.snd with
+  | got i d => exact step i _ _ (Or.inl rfl)
+  | _ => exact Or.inl rfl
 
 theorem expect_ins_noaff {sys : Sys K T R} {sh : Shared K V T R} (b : Sub K V R) {k : K}
     {i : Item K R} (h : i.aff sys k = false) : expect sys sh (b.ins i) k = expect sys sh b k := by
@@ -309,14 +423,15 @@ def walkPending (b : Sub K V R) (k : K) : Prop :=
   b.pc = .spawn ∨ ∃ todo vis, b.walker = .walking todo vis ∧ k ∈ todo
 
 def Good (sys : Sys K T R) (rq : Req K T R) (sh : Shared K V T R) (b : Sub K V R) (k : K) : Prop :=
-  expect sys sh b k = sh.cache k ∨
+  ORel (QChain sh.qlog) (expect sys sh b k) (sh.cache k) ∨
   (sh.present k = true ∧ rq.walks k = true ∧ walkPending b k) ∨
   (rq.walks k = false ∧ expect sys sh b k = none)
 
 /-- E.1 (A), for a registered STREAM subscription without `updates_only`, for every key its
 registered paths are compatible with and its ACL allows: unless a writer is between `W1`
 and `W2` on `k`, draining the subscriber gives the cache's value of `k`, or the initial walk
-will still visit `k`, or (`k` is streamed but not part of the snapshot) nothing is known yet -/
+will still visit `k`, or (`k` is streamed but not part of the snapshot) nothing is known yet.
+"gives the cache's value": up to the quiet writes logged in `sh.qlog` (`ORel (QChain sh.qlog)`). -/
 def Conv (sys : Sys K T R) (rq : Req K T R) (sh : Shared K V T R) (b : Sub K V R) : Prop :=
   b.registered = true → rq.updatesOnly = false → ∀ k, rq.wants k = true →
     rq.allow (sys.tgt k) = true → sh.inflight sys k = false → Good sys rq sh b k
@@ -398,7 +513,7 @@ theorem conv_local {sys : Sys K T R} {rq : Req K T R} {sh : Shared K V T R} {b b
   case h1 hpc _ => rw [show b.registered = false from hph.pre_reg (by rw [hpc]; rfl)] at hr; cases hr
   case h2 hpc _ => rw [show b.registered = false from hph.pre_reg (by rw [hpc]; rfl)] at hr; cases hr
   case h3 hpc _ => rw [show b.registered = false from hph.pre_reg (by rw [hpc]; rfl)] at hr; cases hr
-  case h4poll hpc _ =>
+  case h4poll hpc _ _ =>
     rw [show b.registered = false from hph.pre_reg (by rw [hpc]; rfl)] at hr; cases hr
   case h4stream hpc _ _ =>
     rw [show b.registered = false from hph.pre_reg (by rw [hpc]; rfl)] at hr; cases hr
@@ -419,7 +534,7 @@ theorem conv_local {sys : Sys K T R} {rq : Req K T R} {sh : Shared K V T R} {b b
         obtain ⟨x, hx, rfl⟩ := List.mem_map.1 hj
         rw [h3 x hx]; rfl
     cases hp : sh.present k with
-    | false => exact Or.inl (by rw [he]; simp [Shared.cache, hp])
+    | false => exact Or.inl (ORel.qrefl (by rw [he]; simp [Shared.cache, hp]))
     | true =>
       cases hwk : rq.walks k with
       | false => exact Or.inr (Or.inr ⟨hwk, he⟩)
@@ -446,7 +561,7 @@ theorem conv_local {sys : Sys K T R} {rq : Req K T R} {sh : Shared K V T R} {b b
     have hcl0 := (hph.reg_open hr').1
     by_cases e : k0 = k
     · subst e
-      refine Or.inl ?_
+      refine Or.inl (ORel.qrefl ?_)
       refine (expect_congr (b := b.ins (.handle k0 (sh.gen k0))) k0 rfl rfl rfl).trans ?_
       rw [expect_ins_handle b hcl0 (hcl k0 hp0)]
       simp [Shared.cache, hp0]
@@ -528,6 +643,9 @@ theorem genInv_shared {sys : Sys K T R} {rq : Req K T R} {sh sh' : Shared K V T 
   | w1Upd k v =>
     simp only [shFire, Option.ite_none_right_eq_some, Option.some.injEq] at h
     obtain ⟨_, rfl⟩ := h; exact hi
+  | w1Quiet k v =>
+    simp only [shFire, Option.ite_none_right_eq_some, Option.some.injEq] at h
+    obtain ⟨_, rfl⟩ := h; exact hi
   | w1Add k v =>
     simp only [shFire, Option.ite_none_right_eq_some, Option.some.injEq] at h
     obtain ⟨_, rfl⟩ := h
@@ -564,6 +682,9 @@ theorem curLast_shared {sys : Sys K T R} {rq : Req K T R} {sh sh' : Shared K V T
   | tAdd t =>
     simp only [shFire, Option.some.injEq] at h; subst h; exact hi
   | w1Upd k v =>
+    simp only [shFire, Option.ite_none_right_eq_some, Option.some.injEq] at h
+    obtain ⟨_, rfl⟩ := h; exact hi
+  | w1Quiet k v =>
     simp only [shFire, Option.ite_none_right_eq_some, Option.some.injEq] at h
     obtain ⟨_, rfl⟩ := h; exact hi
   | w1Add k v =>
@@ -622,11 +743,45 @@ theorem curLast_shared {sys : Sys K T R} {rq : Req K T R} {sh sh' : Shared K V T
 theorem good_transfer {sys : Sys K T R} {rq : Req K T R} {sh sh' : Shared K V T R} {b b' : Sub K V R}
     {k : K} (he : expect sys sh' b' k = expect sys sh b k) (hc : sh'.cache k = sh.cache k)
     (hp : sh'.present k = sh.present k) (hw : walkPending b k → walkPending b' k)
+    (hq : ∀ p ∈ sh.qlog, p ∈ sh'.qlog)
     (h : Good sys rq sh b k) : Good sys rq sh' b' k := by
   rcases h with h | ⟨h1, h2, h3⟩ | ⟨h1, h2⟩
-  · exact Or.inl (by rw [he, hc]; exact h)
+  · exact Or.inl (by rw [he, hc]; exact h.imp (fun _ _ => QChain.mono hq))
   · exact Or.inr (Or.inl ⟨hp ▸ h1, h2, hw h3⟩)
   · exact Or.inr (Or.inr ⟨h1, he ▸ h2⟩)
+
+/-- a quiet write of `k` (the leaf object of the current generation now holds `v`, nobody is told):
+`Good` is kept, through one more link `(old, v)` of the log -/
+theorem good_quiet {sys : Sys K T R} {rq : Req K T R} {sh : Shared K V T R} {b : Sub K V R} {k : K} {v : V}
+    (hp0 : sh.present k = true) (sh' : Shared K V T R)
+    (hval : sh'.val k = setFn (sh.val k) (sh.gen k) v) (hpres : sh'.present = sh.present)
+    (hgen : sh'.gen = sh.gen) (hq : sh'.qlog = sh.qlog ++ [(sh.val k (sh.gen k), v)])
+    (b' : Sub K V R) (hbq : b'.q = b.q) (hbs : b'.snd = b.snd) (hbt : b'.sent = b.sent)
+    (hw : walkPending b k → walkPending b' k) (old : Good sys rq sh b k) : Good sys rq sh' b' k := by
+  have hc' : sh'.cache k = some v := by
+    simp [Shared.cache, hpres, hp0, hval, hgen, setFn]
+  have hc : sh.cache k = some (sh.val k (sh.gen k)) := by simp [Shared.cache, hp0]
+  have hex := expect_setVal (sys := sys) (sh := sh) (sh' := sh') b k (sh.gen k) v hval
+  have hb : expect sys sh' b' k = expect sys sh' b k := expect_congr k hbq hbs hbt
+  rcases old with h | ⟨h1, h2, h3⟩ | ⟨h1, h2⟩
+  · refine Or.inl ?_
+    rw [hb, hc', hq]
+    rcases hex with he | ⟨he, _⟩
+    · rw [he]
+      rw [hc] at h
+      cases hx : expect sys sh b k with
+      | none => rw [hx] at h; exact h.elim
+      | some a =>
+        rw [hx] at h
+        exact QChain.tail (QChain.mono (fun p hp => List.mem_append_left _ hp) h)
+          (List.mem_append_right _ (List.mem_singleton.2 rfl))
+    · rw [he]; exact QChain.refl v
+  · exact Or.inr (Or.inl ⟨by rw [hpres]; exact h1, h2, hw h3⟩)
+  · refine Or.inr (Or.inr ⟨h1, ?_⟩)
+    rw [hb]
+    rcases hex with he | ⟨_, he⟩
+    · rw [he]; exact h2
+    · rw [h2] at he; cases he
 
 theorem inflight_snoc (sys : Sys K T R) (sh : Shared K V T R) (k : K) (us : List (WUnit K R))
     (h : (sh.pend ++ us).any (WUnit.touches sys k) = false) :
@@ -661,7 +816,7 @@ theorem conv_shared {sys : Sys K T R} {rq : Req K T R} {sh sh' : Shared K V T R}
   | tAdd t =>
     simp only [shFire, Option.some.injEq] at h; subst h
     intro hr huo k hw ha hf
-    exact good_transfer (sh := sh) (b := b) (expect_sh_congr (sh := sh) b k rfl) rfl rfl (fun h => h) (hi hr huo k hw ha hf)
+    exact good_transfer (sh := sh) (b := b) (expect_sh_congr (sh := sh) b k rfl) rfl rfl (fun h => h) (fun _ h => h) (hi hr huo k hw ha hf)
   | w1Upd k0 v =>
     simp only [shFire, Option.ite_none_right_eq_some, Option.some.injEq] at h
     obtain ⟨_, rfl⟩ := h
@@ -671,10 +826,27 @@ theorem conv_shared {sys : Sys K T R} {rq : Req K T R} {sh sh' : Shared K V T R}
       intro e
       have := hf2 _ (List.mem_singleton.2 rfl)
       simp [WUnit.touches, e] at this
-    refine good_transfer (sh := sh) (b := b) ?_ ?_ rfl (fun h => h) (hi hr huo k hw ha hf1)
+    refine good_transfer (sh := sh) (b := b) ?_ ?_ rfl (fun h => h) (fun _ h => h) (hi hr huo k hw ha hf1)
     · refine (expect_congr (b := b) k rfl rfl rfl).trans (expect_sh_congr (sh := sh) b k ?_)
       exact setFn_other _ _ hne
     · simp [Shared.cache, setFn_other _ _ hne]
+  | w1Quiet k0 v =>
+    simp only [shFire, Option.ite_none_right_eq_some, Option.some.injEq] at h
+    obtain ⟨⟨hp0, _⟩, rfl⟩ := h
+    intro hr huo k hw ha hf
+    have hf1 : sh.inflight sys k = false := hf
+    have old := hi hr huo k hw ha hf1
+    have hsub : ∀ p ∈ sh.qlog, p ∈ sh.qlog ++ [(sh.val k0 (sh.gen k0), v)] :=
+      fun p hp => List.mem_append_left _ hp
+    by_cases hne : k = k0
+    · subst hne
+      refine good_quiet (b := b) (v := v) hp0 _ ?_ ?_ ?_ ?_ _ ?_ ?_ ?_ (fun h => h) old
+      · exact setFn_same _ _ _
+      all_goals rfl
+    · refine good_transfer (sh := sh) (b := b) ?_ ?_ rfl (fun h => h) hsub old
+      · refine (expect_congr (b := b) k rfl rfl rfl).trans (expect_sh_congr (sh := sh) b k ?_)
+        exact setFn_other _ _ hne
+      · simp [Shared.cache, setFn_other _ _ hne]
   | w1Add k0 v =>
     simp only [shFire, Option.ite_none_right_eq_some, Option.some.injEq] at h
     obtain ⟨_, rfl⟩ := h
@@ -684,7 +856,7 @@ theorem conv_shared {sys : Sys K T R} {rq : Req K T R} {sh sh' : Shared K V T R}
       intro e
       have := hf2 _ (List.mem_singleton.2 rfl)
       simp [WUnit.touches, e] at this
-    refine good_transfer (sh := sh) (b := b) ?_ ?_ ?_ (fun h => h) (hi hr huo k hw ha hf1)
+    refine good_transfer (sh := sh) (b := b) ?_ ?_ ?_ (fun h => h) (fun _ h => h) (hi hr huo k hw ha hf1)
     · refine (expect_congr (b := b) k rfl rfl rfl).trans (expect_sh_congr (sh := sh) b k ?_)
       exact setFn_other _ _ hne
     · simp [Shared.cache, setFn_other _ _ hne]
@@ -698,7 +870,7 @@ theorem conv_shared {sys : Sys K T R} {rq : Req K T R} {sh sh' : Shared K V T R}
       intro hk
       have := hf2 (.del k) (List.mem_map_of_mem hk)
       simp [WUnit.touches] at this
-    refine good_transfer (sh := sh) (b := b) ?_ ?_ ?_ ?_ (hi hr huo k hw ha hf1)
+    refine good_transfer (sh := sh) (b := b) ?_ ?_ ?_ ?_ (fun _ h => h) (hi hr huo k hw ha hf1)
     · exact (expect_congr (b := b) k rfl rfl rfl).trans (expect_sh_congr (sh := sh) b k rfl)
     · simp [Shared.cache, hnk]
     · simp [hnk]
@@ -711,7 +883,7 @@ theorem conv_shared {sys : Sys K T R} {rq : Req K T R} {sh sh' : Shared K V T R}
     have hnk : sys.covers r k = false := by
       have := hf2 _ (List.mem_singleton.2 rfl)
       simpa [WUnit.touches] using this
-    refine good_transfer (sh := sh) (b := b) ?_ ?_ ?_ ?_ (hi hr huo k hw ha hf1)
+    refine good_transfer (sh := sh) (b := b) ?_ ?_ ?_ ?_ (fun _ h => h) (hi hr huo k hw ha hf1)
     · exact (expect_congr (b := b) k rfl rfl rfl).trans (expect_sh_congr (sh := sh) b k rfl)
     · simp [Shared.cache, hnk]
     · simp [hnk]
@@ -731,13 +903,13 @@ theorem conv_shared {sys : Sys K T R} {rq : Req K T R} {sh sh' : Shared K V T R}
       have hf1 : sh.inflight sys k = false := inflight_erase hf ht
       have old := hi hr' huo k hw ha hf1
       split
-      · refine good_transfer (sh := sh) (b := b) ?_ rfl rfl ?_ old
+      · refine good_transfer (sh := sh) (b := b) ?_ rfl rfl ?_ (fun _ h => h) old
         · exact (expect_ins_noaff b (by rw [item_aff_touches]; exact ht)).trans
             (expect_sh_congr (sh := sh) b k rfl)
         · rintro (hpc | ⟨todo, vis, hwk, hm⟩)
           · exact Or.inl (by simpa using hpc)
           · exact Or.inr ⟨todo, vis, by simpa using hwk, hm⟩
-      · exact good_transfer (sh := sh) (b := b) (expect_sh_congr (sh := sh) b k rfl) rfl rfl (fun h => h) old
+      · exact good_transfer (sh := sh) (b := b) (expect_sh_congr (sh := sh) b k rfl) rfl rfl (fun h => h) (fun _ h => h) old
     | true =>
       have hoff : u.offered rq = true := by
         cases u with
@@ -747,7 +919,7 @@ theorem conv_shared {sys : Sys K T R} {rq : Req K T R} {sh sh' : Shared K V T R}
                     subst this; exact hw
         | reg r => exact hrq k r hw (by simpa [WUnit.touches] using ht)
       rw [if_pos (by simp [hr', hoff])]
-      refine Or.inl ?_
+      refine Or.inl (ORel.qrefl ?_)
       cases u with
       | upd k' g =>
         have : k' = k := by simpa [WUnit.touches] using ht
